@@ -168,6 +168,7 @@ def run(ctx):
         if fi.get('_') == 'panic':
             return 'the harness caught a panic outside the guarded conversions on ' + case
         if t[0] == 'harvest':
+            dropped_meta.update(unhex(x) for x in fi.get('drop', '-').split(',') if x != '-')
             totals['fixtures'] += 1
             totals['packages'] += int(fi.get('pk', '0') or 0)
             totals['purls'] += int(fi.get('purls', '0') or 0)
@@ -178,6 +179,7 @@ def run(ctx):
                 return 'package(s) extracted by %s from its fixture %s: %s%s' % (unhex(t[1]), unhex(t[2]), ', '.join(iss), (' — location | package | purl | issue: ' + ' ;; '.join(bad)) if bad else '')
             return None
         if t[0] == 'layout':
+            dropped_meta.update(unhex(x) for x in fi.get('drop', '-').split(',') if x != '-')
             totals['layout_packages'] = totals.get('layout_packages', 0) + int(fi.get('pk', '0') or 0)
             iss = issues_of(fi)
             if iss:
@@ -203,9 +205,6 @@ def run(ctx):
             if not fm or '_' in fm:
                 return None
             bad = [k for k in PROTO_KEYS if fi.get(k) != fm.get(k)]
-            mt = unhex(t[10]) if t[10] != '_' else ''
-            if t[10] != '_' and fi.get('meta') == '0' and not mt.endswith('main.unknownMeta') and '/' in mt:
-                dropped_meta.add(mt)
             if bad:
                 return 'the result proto does not carry the package\'s fields verbatim: ' + '; '.join('%s: proto has %s, package has %s' % (k, fi.get(k), fm.get(k)) for k in bad[:4])
             return None
